@@ -102,7 +102,11 @@ def bad_field_classes():
     return out
 
 
+POS_SHIFT = [0]
+
+
 def invalid_universe(rng, copies=1):
+    POS_SHIFT[0] = rng.randrange(7)
     """-> (defs, plan) where plan is a list of (class, position, bad top-level type, [valid neighbour types])"""
     defs = U.leaf_structs()
     plan = []
@@ -116,7 +120,8 @@ def invalid_universe(rng, copies=1):
             defs[base] = struct([dict(shared), dict(good), badf])
             defs[base]["invalid"] = True
             plan.append((cls, "top", base, []))
-            pos = rng.choice(["nested", "listelem", "mapval", "cycle", "nested2"])
+            poss = ["nested", "listelem", "mapval", "cycle", "nested2", "mapkey", "listmapkey"]
+            pos = poss[(ci + copy + rng.randrange(1000) * 0 + POS_SHIFT[0]) % len(poss)]     # every position meets many classes in every run
             holder = "%s_%s" % (base, pos)
             inner = "%sI_%s" % (base, pos)   # a private bad type first met nested
             defs[inner] = struct([dict(shared), dict(good), dict(badf)])
@@ -132,6 +137,10 @@ def invalid_universe(rng, copies=1):
                 defs[holder] = struct([field(1, "default", ST(mid, False)), field(2, "default", T("i32"))])
             elif pos == "listelem":
                 defs[holder] = struct([field(1, "default", L(ST(inner, True))), field(2, "default", T("i32"))])
+            elif pos == "mapkey":
+                defs[holder] = struct([field(1, "default", M(ST(inner, True), T("i32"))), field(2, "default", ST("Leaf", True))])
+            elif pos == "listmapkey":
+                defs[holder] = struct([field(1, "default", L(M(ST(inner, True), T("string")))), field(2, "default", T("i32"))])
             elif pos == "mapval":
                 defs[holder] = struct([field(1, "default", M(T("string"), ST(inner, True))), field(2, "default", ST("Leaf", True))])
             else:  # cycle: holder -> A -> {B, inner}, B -> A ; Y -> B is a valid-looking relative that reaches the bad type
@@ -254,7 +263,7 @@ def run(prop, tier, seed, work):
         scen.append({"sid": sid, "prop": prop, "vals": vals, "steps": steps, "tags": [cls, pos], "dkey": "%s/%s" % (cls, pos)})
     # arguments that are not (pointers to) structs
     steps = []
-    for argk in ["nil", "int", "intptr", "ptrptr", "nilptr", "str", "slice", "map"]:
+    for argk in ["nil", "int", "intptr", "ptrptr", "nilptr", "str", "slice", "map", "nilintptr", "nilsliceptr", "nilptrptr", "nilmapptr"]:
         for e in entries:
             if argk == "nilptr" and e != "decode":
                 continue   # a nil *struct is a pointer to a struct: encoding it is not an error
@@ -262,5 +271,12 @@ def run(prop, tier, seed, work):
     # decode additionally needs a pointer: a struct value is not a valid destination
     steps.append({"op": "reject", "ty": "Leaf", "entry": "decode", "arg": "val", "class": "arg-val-decode", "repeat": 2})
     scen.append({"sid": "C13-args", "prop": prop, "vals": [], "steps": steps, "tags": ["args"], "dkey": "args"})
+    # typed nil pointers to unsupported struct types (no value to look at: the type alone must be rejected)
+    steps = []
+    for i, (cls, pos, ty, neighbours) in enumerate(plan):
+        if i % 3 == 0:
+            for e in ("encode", "size"):
+                steps.append({"op": "reject", "ty": ty, "entry": e, "arg": "nilptr", "class": "nilptr-" + cls, "repeat": 1})
+    scen.append({"sid": "C13-nilptr-invalid", "prop": prop, "vals": [], "steps": steps, "tags": ["args", "nilptr"], "dkey": "nilptr"})
     suite.run_batches(res, work, [Batch("invalid", defs, scen), regmc_batch(work, res, quick, rng)], want_props={"C13", "C01", "C02", "C03", "C04"})
     return suite.finish(res, RULE, ASSUME)
